@@ -103,11 +103,24 @@ def case_bins(run, i):
     for _ in range(int(rng.integers(0, 3))):
         b = baits2[int(rng.integers(0, len(baits2)))]
         baits2.append((b[0], b[1], b[1]))
+    tavg = float(rng.choice([200 / 0.75, 100, 1000, 3.5, max(1, scale // 7)]))
+    if rng.random() < 0.3:
+        # merged baits whose length is exactly (k + 1/2) * avg: the bin count is round()'s tie case
+        tavg = float(2 * int(rng.choice([50, 100, 500])))
+        c0 = tchroms[0]
+        pos = max(b[2] for b in baits2 if b[0] == c0) + 1000
+        for _ in range(int(rng.integers(2, 7))):
+            ln = int(rng.integers(0, 9)) * int(tavg) + int(tavg) // 2
+            if rng.random() < 0.4:
+                m = pos + int(rng.integers(1, ln))
+                baits2 += [(c0, pos, m), (c0, m, pos + ln)]
+            else:
+                baits2.append((c0, pos, pos + ln))
+            pos += ln + int(rng.integers(1, 5000))
     order = {c: k for k, c in enumerate(tchroms)}
     baits2.sort(key=lambda r: (order[r[0]], r[1], r[2]))
     labels = ["ref|GENE%d,mRNA|AF%d,ens|ENST%d" % (k // 3, k // 3, k) for k in range(len(baits2))]
     b_arr = make_ga([b + (labels[k],) for k, b in enumerate(baits2)], ("gene",))
-    tavg = float(rng.choice([200 / 0.75, 100, 1000, 3.5, max(1, scale // 7)]))
     tspan = sum(b[2] - b[1] for b in baits2)
     if tspan / tavg > 3000:
         tavg = tspan / 3000 + 0.5
